@@ -26,7 +26,10 @@ EXPLANATION = (
     "and the same index variable (low = edges[axis][i], high = edges[axis][i + 1], enumerated forwards), and the left/right/middle "
     "coordinate of a graph point takes the matching member of (low, high); "
     "(i) recursive numeric helpers (isclose, md_map, ...) pass their unchanged parameters on in place, and scale_to handles a value that "
-    "cannot be rescaled inside its loop over the group.")
+    "cannot be rescaled inside its loop over the group; (j) WHO MAY WRITE -- in the value classes histogram and graph only the "
+    "constructor and the documented modifiers (histogram.fill / scale / set_nevents, graph.scale) store through self, and only "
+    "the fields tabled for them: a query (get_nevents, __eq__, rows, ...) that leaves something behind in the object is a memo "
+    "that fill(), which changes cells in place, cannot invalidate.")
 RULES = {
     "C12-a": "GUARD: division by a scale/count is dominated by a zero test that raises LenaValueError",
     "C12-b": "PURE: histogram.add leaves its operands alone and returns a new histogram over copied edges",
@@ -38,6 +41,8 @@ RULES = {
              "names keep the order of the fields (their position is their column)",
     "C12-h": "PAIRING: the cell iterators and hist_to_graph pair a cell's content, index and edges through one and the same index "
              "variable (low = edges[axis][i], high = edges[axis][i + 1]); the left/right/middle coordinate takes the matching member",
+    "C12-j": "WHO MAY WRITE: only __init__ and the tabled modifiers of histogram/graph store through self, and only their tabled fields "
+             "(queries keep no memo: get_nevents after a further fill must count that fill)",
     "C12-i": "PASS-THROUGH: a recursive call of a numeric helper hands every unchanged parameter on in its own position (rel_tol as "
              "rel_tol, abs_tol as abs_tol); the tolerated per-item failures of scale_to are handled inside the loop over the group",
 }
@@ -732,7 +737,60 @@ def check_pass_through(ctx):
                               construct="handler-outside-loop:%s" % (A.src(h.type) if h.type is not None else "*"))
 
 
+# (module, class) -> method -> fields it may store through self; any other method must store nothing
+WRITERS = {
+    (HIST, "histogram"): {"fill": {"n_out_of_range"}, "set_nevents": {"bins", "n_out_of_range"}, "scale": {"_scale", "bins", "n_out_of_range"}},
+    (GRAPH, "graph"): {"scale": {"_scale", "coords"}},
+}
+_SELF_MUT = ("append", "extend", "insert", "pop", "remove", "clear", "update", "setdefault", "popitem", "sort", "reverse", "add", "discard")
+
+
+def check_who_may_write(ctx):
+    """histogram.fill changes a cell in place (self.bins stays the same list), scale/set_nevents rebind bins: no derived quantity
+    can be cached on the object and stay valid, and none is.  The rule keeps it so: it tables the writers."""
+    from ..loader import methods
+    n = 0
+    for (modname, cname), table in sorted(WRITERS.items()):
+        cls = ctx.tree.cls(modname, cname)
+        ms = methods(cls)
+        init_fields = set()
+        for name, fn in sorted(ms.items()):
+            selfn = (A.func_params(fn) or ["self"])[0]
+            written = {}
+            for x in A.walk_local(fn):
+                f = None
+                if isinstance(x, (ast.Attribute, ast.Subscript)) and isinstance(x.ctx, (ast.Store, ast.Del)) and A.root_name(x) == selfn:
+                    f = x
+                elif isinstance(x, ast.Call) and isinstance(x.func, ast.Attribute) and x.func.attr in _SELF_MUT \
+                        and A.root_name(x.func.value) == selfn and not (isinstance(x.func.value, ast.Name)):
+                    f = x.func.value
+                elif isinstance(x, ast.Call) and A.call_name(x) in ("setattr", "__setattr__") and x.args and A.src(x.args[0]) == selfn:
+                    written.setdefault(A.const(x.args[1], "<computed>") if len(x.args) > 1 else "<computed>", x)
+                elif isinstance(x, ast.Attribute) and x.attr == "__dict__" and A.src(x.value) == selfn:
+                    written.setdefault("__dict__", x)
+                if f is not None:
+                    while isinstance(f, (ast.Attribute, ast.Subscript)) and not (isinstance(f, ast.Attribute) and A.src(f.value) == selfn):
+                        f = f.value
+                    if isinstance(f, ast.Attribute):
+                        written.setdefault(f.attr, x)
+            if name == "__init__":
+                init_fields = set(written)
+                continue
+            n += 1
+            allowed = table.get(name, set())
+            extra = sorted(set(written) - allowed)
+            ctx.check("C12-j", not extra, written[extra[0]] if extra else fn,
+                      "%s.%s stores %s through self (`%s`); %s.  fill() changes cells in place and does not know about such a field, so a value "
+                      "remembered here goes stale: get_nevents() after a further fill would report the old count and set_nevents(n) "
+                      "would scale by it" % (cname, name, ", ".join(extra), A.short(written[extra[0]], 50) if extra else "",
+                                              "it may only write " + ", ".join(sorted(allowed)) if allowed else "it is a query and must write nothing"),
+                      detail="%s.%s writes %s" % (cname, name, ", ".join(sorted(written)) or "nothing"), construct="writes:%s.%s" % (cname, name))
+        ctx.note("init_fields_%s" % cname, sorted(init_fields))
+    ctx.instances_floor("C12-j", n, 14, "methods of histogram and graph")
+
+
 def check(ctx):
+    check_who_may_write(ctx)
     check_pass_through(ctx)
     check_pairing(ctx)
     check_agreements(ctx)
@@ -745,6 +803,9 @@ def check(ctx):
 
 
 VARIANTS = [
+    M("get-nevents-memo", "lena/structures/histogram.py", "        bin_contents = (val[1] for val in hf.iter_bins(self.bins))\n        n_in_range = sum(bin_contents)\n",
+      "        cached = getattr(self, \"_nevents\", None)\n        if cached is not None and cached[0] is self.bins:\n            n_in_range = cached[1]\n        else:\n            bin_contents = (val[1] for val in hf.iter_bins(self.bins))\n            n_in_range = sum(bin_contents)\n            self._nevents = (self.bins, n_in_range)\n", ["C12-j"]),
+    M("graph-rows-cached", "lena/structures/graph.py", "    def _parse_error_names(self, field_names):", "    def _cached_len(self):\n        self.__dict__.setdefault(\"_len\", len(self.coords[0]))\n        return self._len\n\n    def _parse_error_names(self, field_names):", ["C12-j"]),
     M("isclose-tolerances-swapped", "lena/math/utils.py", "            if not isclose(el, b[ind], rel_tol, abs_tol):", "            if not isclose(el, b[ind], abs_tol, rel_tol):", ["C12-i"]),
     M("edges-high-is-low", "lena/structures/hist_functions.py", "            edges_high.append(edges[var][var_ind+1])", "            edges_high.append(edges[var][var_ind])", ["C12-h"]),
     M("edges-swapped-zip", "lena/structures/hist_functions.py", "        yield (bin_, tuple(zip(edges_low, edges_high)))", "        yield (bin_, tuple(zip(edges_high, edges_low)))", ["C12-h"]),
